@@ -152,7 +152,8 @@ def main(argv=None):
             print(f"CHECKER-CRASH function={fr['function']}: zero obligations generated", file=sys.stderr)
             crash = True
             continue
-        if fr.get('cover_return_reachable') is False:
+        if fr.get('cover_return_reachable') is False and not any(
+                o['verdict'] == 'refuted' and o['kind'] == 'no-raise' for o in fr['obligations']):
             print(f"CHECKER-CRASH function={fr['function']}: vacuous (no reachable normal exit under the precondition)",
                   file=sys.stderr)
             crash = True
